@@ -307,6 +307,13 @@ impl MemStorageCore {
 
         if let Some(entry) = self.entries.first() {
             let offset = compact_index - entry.index;
+            if offset as usize == self.entries.len() {
+                // Everything is compacted: remember the boundary, otherwise first_index/
+                // last_index/term would fall back to the position of the last snapshot.
+                let last = &self.entries[self.entries.len() - 1];
+                self.snapshot_metadata.index = last.index;
+                self.snapshot_metadata.term = last.term;
+            }
             self.entries.drain(..offset as usize);
         }
         Ok(())
